@@ -123,7 +123,7 @@ def curve_value(kv: KV, P, W, u, d):
     for Ni, Pi, wi in zip(N, P, W):
         if _iszero(Ni):
             continue
-        t = (Ni * wi) * Pi
+        t = Ni * (wi * Pi)  # w_i * P_i first: a control point carrying 1/w_i cancels exactly
         num = t if num is None else num + t
         s = Ni * wi
         den = s if den is None else den + s
